@@ -125,7 +125,7 @@ func checkC16(c *Ctx, r *Report) {
 	}
 
 	// ---- C16.b regex <-> consumers
-	checkAnnotationRegex(c, r)
+	checkAnnotationRegex(c, r, "C16.b")
 
 	// ---- C16.c every line lands in exactly one list; order is source order
 	if fi := need(c, r, "C16.c", pcn); fi != nil {
@@ -416,7 +416,7 @@ func guardsOfBlock(b *ssa.BasicBlock) []edgeFact {
 }
 
 // checkAnnotationRegex: the capture groups of parsingRegex and their consumers.
-func checkAnnotationRegex(c *Ctx, r *Report) {
+func checkAnnotationRegex(c *Ctx, r *Report, clause string) {
 	w := c.W
 	const pcn = pkgAnn + ".parseCommentNode"
 	pat := ""
@@ -466,7 +466,7 @@ func checkAnnotationRegex(c *Ctx, r *Report) {
 		}
 	}
 	// consumers
-	fi := need(c, r, "C16.b", pcn)
+	fi := need(c, r, clause, pcn)
 	groupOf := map[string]string{}
 	if fi != nil {
 		info := fi.Pkg.TypesInfo
@@ -538,7 +538,7 @@ func checkAnnotationRegex(c *Ctx, r *Report) {
 			}
 		}
 	}
-	o := r.add("C16.b", "setagree", "parsingRegex:groups==consumers", "the regular expression has exactly the four capture groups parseCommentNode reads, and Name/Value/Properties/Description are each fed from their own group", []string{pkgAnn + ".parsingRegex", pcn}, sites, viol)
+	o := r.add(clause, "setagree", "parsingRegex:groups==consumers", "the regular expression has exactly the four capture groups parseCommentNode reads, and Name/Value/Properties/Description are each fed from their own group", []string{pkgAnn + ".parsingRegex", pcn}, sites, viol)
 	o.NonTrivial = true
 
 	// the regex is applied to the line's own text and the groups are cut from the same text
@@ -555,6 +555,6 @@ func checkAnnotationRegex(c *Ctx, r *Report) {
 		if len(s2) != 1 {
 			v2 = "expected one FindStringSubmatchIndex call"
 		}
-		r.add("C16.b", "fieldflow", pcn+":matched-text", "the grammar is applied to the comment line itself", []string{pcn}, s2, v2)
+		r.add(clause, "fieldflow", pcn+":matched-text", "the grammar is applied to the comment line itself", []string{pcn}, s2, v2)
 	}
 }
